@@ -132,7 +132,7 @@ def parse (stopsAtEof rejectsEmpty : Bool) (o : POpts) (bs : Seq) : Outcome Aln 
 
 /-! ### writer -/
 
-def header : Seq := "# STOCKHOLM 1.0\n#=GF ID   Goalign generated alignment\n".toUTF8.toList
+def header : Seq := ([35, 32, 83, 84, 79, 67, 75, 72, 79, 76, 77, 32, 49, 46, 48, 10, 35, 61, 71, 70, 32, 73, 68, 32, 32, 32, 71, 111, 97, 108, 105, 103, 110, 32, 103, 101, 110, 101, 114, 97, 116, 101, 100, 32, 97, 108, 105, 103, 110, 109, 101, 110, 116, 10] : Seq)
 
 def write (rows : List XRow) : Seq :=
   header ++ rows.flatMap (fun r => r.1 ++ [TAB] ++ r.2 ++ [NL]) ++ [47, 47]
